@@ -383,7 +383,7 @@ def _aiger_t2(kind, make_parser):
         "overlay_extra": _QUEUE["overlay_extra"],
         "inject": _stub_injects("flussab-aiger/src/token.rs", _AIGER_TOKEN_SPECS),
         "append_text": _MODEL["append_text"] + [("flussab-aiger/src/%s.rs" % kind, make_parser)],
-        "params": {"quick": {"N": 2}, "thorough": {"N": 2}},
+        "params": {"quick": {"N": 2, "QCAP": 4}, "thorough": {"N": 2, "QCAP": 4}},
         "flags": ["--default-unwind", "10"],
         "rss_gb": 16,
         "timeout": {"quick": 1200, "thorough": 3600},
@@ -430,6 +430,7 @@ def _aiger_t3(kind, make_parser, harnesses):
         "overlay_extra": _QUEUE["overlay_extra"],
         "inject": g["inject"] + _QUEUE["inject"],
         "append_text": g["append_text"] + [_SMALL_WRITER],
+        "params": {"quick": {"N": 2, "QCAP": 28}, "thorough": {"N": 2, "QCAP": 28}},
         "flags": ["--default-unwind", "12"],
         "harnesses": harnesses,
     })
@@ -465,6 +466,17 @@ GROUPS["aiger_ascii_t3"] = _aiger_t3("ascii", GROUPS["aiger_ascii_t2"]["append_t
     ("reach_ascii_t3", {"kind": "reach", "cost": 3, "what": "vacuity twin"}),
 ])
 
+GROUPS["aiger_ascii_doc"] = dict(GROUPS["aiger_ascii_t3"], **{
+    "name": "aiger_ascii_doc",
+    "params": {"quick": {"N": 2, "QCAP": 64}, "thorough": {"N": 2, "QCAP": 64}},
+    "params": {"quick": {"N": 2, "QCAP": 80}, "thorough": {"N": 2, "QCAP": 80}},
+    "flags": ["--default-unwind", "12"],
+    "harnesses": [
+        ("w_ordered_document_order", {"props": ["C03"], "cost": 5, "what": "ascii write_ordered_aig: implicit numbering made explicit (inputs 2,4,.., latch and gate literals consecutive), trailing zero header fields dropped"}),
+        ("w_document_order", {"props": ["C03"], "cost": 5, "what": "ascii write_aig emits header, inputs, latches, outputs, bad, constraints, justice sizes, justice literals, fairness, and gates, symbols, comment in the order and shape of the AIGER grammar (symbolic literals, concrete shape)"}),
+    ],
+})
+
 GROUPS["aiger_binary_t3"] = _aiger_t3("binary", _MAKE_BINARY, [
     ("sec_next_output", dict(_SEC, what="binary next_output from any section state")),
     ("sec_next_bad", dict(_SEC, what="binary next_bad_state_property")),
@@ -491,7 +503,14 @@ GROUPS["aiger_binary_t3"] = _aiger_t3("binary", _MAKE_BINARY, [
     ("rt_comment", dict(_RT, flags=["--default-unwind", "5"], what="binary write_comment -> comment()")),
     ("reach_binary_t3", {"kind": "reach", "cost": 3, "what": "vacuity twin"}),
 ])
-GROUPS["aiger_binary_t3"]["inject"] = GROUPS["aiger_binary_t3"]["inject"] + [
+GROUPS["aiger_binary_doc"] = dict(GROUPS["aiger_binary_t3"], **{
+    "name": "aiger_binary_doc",
+    "params": {"quick": {"N": 2, "QCAP": 80}, "thorough": {"N": 2, "QCAP": 80}},
+    "harnesses": [
+        ("w_ordered_document_order", {"props": ["C03"], "cost": 5, "what": "binary write_ordered_aig emits header, latches, outputs, bad, constraints, justice sizes, justice literals, fairness, delta-coded and gates, symbols, comment in the order and shape of the AIGER grammar"}),
+    ],
+})
+GROUPS["aiger_binary_doc"]["inject"] = GROUPS["aiger_binary_t3"]["inject"] = GROUPS["aiger_binary_t3"]["inject"] + [
     ("flussab-aiger/src/binary.rs", r"fn write_binary_uint\(&mut self, mut code: usize\) \{\n",
      "        #[cfg(kani)]\n        if flussab::verif_q::capturing() {\n            return flussab::verif_q::push_bin(code as u64);\n        }\n"),
 ]
@@ -802,7 +821,7 @@ PROPERTIES["C10"] = {
 
 PROPERTIES["C03"] = {
     "level": "other",
-    "groups": ["aiger_binary_rt", "btor2_rt", "writer_digits", "aiger_ascii_t2", "aiger_binary_t2", "btor2_parser_t2", "aiger_ascii_t3", "aiger_binary_t3"],
+    "groups": ["aiger_binary_rt", "btor2_rt", "writer_digits", "aiger_ascii_t2", "aiger_binary_t2", "btor2_parser_t2", "aiger_ascii_t3", "aiger_binary_t3", "aiger_ascii_doc", "aiger_binary_doc"],
     "claim": "Round trip decided per entry and by composition, each link a SAT-based bounded model check of real code: (a) binary AIGER 7-bit delta encoding: write_binary_uint -> delta_code/binary_uint is the identity for every value < 2^RT_BITS with exact consumption; (b) BTOR2: every operator name the writer emits is a keyword the parser maps back to the same operator; every constant constructible through the validating TryFrom constructors is read back entirely by the matching constant token; (c) decimal numbers: the writer's integer text is the canonical decimal text of the value (C11 digits harnesses) and the parsers' number tokens return exactly the decimal value of a numeral (C06), so number o text o number = identity; (d) AIGER headers/symbols: the parser's limits do not reject what the writer can produce (T2 header_parse / next_symbol).",
     "level_note": "PARTIAL: whole-line round trips (write_clause -> next_clause, AIGER latch/and-gate lines, BTOR2 Line::write_into -> next_line) were attempted and exhaust CBMC's memory (writer formatting + parser in one query), so line structure (separators, field order) is NOT covered by a solver query; it is covered only by the repository's own round-trip tests. The converse direction parse o write o parse is covered only at token level (leading zeros, -0).",
     "functions": ["flussab_aiger::binary::Writer::write_binary_uint", "flussab_aiger::token::{delta_code, binary_uint}", "flussab_btor2::btor2::{BinaryOp,UnaryOp,TernaryOp}::name", "flussab_btor2::token::{node_token, required_*_constant}", "flussab_btor2::btor2::{BinaryConst,DecimalConst,HexConst}::try_from", "flussab::write::text::ascii_digits", "aiger Header::parse / next_symbol"],
